@@ -909,6 +909,8 @@ def check_C02(tier: str, seed: int) -> int:
             per[g] = {"cells": len(behs), "disagree": nb}
             if behs:
                 out.add_sample({"group": g, "program": [e["stmt"] for e in behs[len(behs) // 2]]}, limit=8)
+        # random short programs (one to three operations, seeded backward) validated line by line against Ref.tla
+        stage_traces(out, profile="c02", n=400 if tier == "quick" else 20000, clauses=["val", "sh", "const", "grad", "np_share"])
         # transcendental kernels: derivative expression trees of Kernels.tla evaluated on domain grids
         kspec = os.path.join(tlc.SPEC, "tables", "Kernels.tla")
         rc, o, wall = tlc.run_tlc(kspec, os.path.join(tlc.SPEC, "tables", "Kernels.cfg"), workers=1, timeout=600)
@@ -933,7 +935,9 @@ def check_C02(tier: str, seed: int) -> int:
             out.coverage["states"] += st["distinct"]
             out.coverage["transitions"] += st["generated"]
         out.coverage.update({"exhaustive": True, "optable_cells": total, "per_group": per, "kernel_rows": len(rows),
-                             "kernel_rows_disagreeing": nk, "traces_validated_against_impl": total + len(rows),
+                             "kernel_rows_disagreeing": nk,
+                             "traces_validated_against_impl": total + len(rows) + sum(
+                                 t["programs"] for t in out.coverage.get("trace_stages", [])),
                              "operations_without_a_row": _uncovered_operations(seen_ops, krows)})
     except tlc.MachineryError as e:
         out.machinery(str(e)[:3000])
@@ -948,7 +952,7 @@ def check_C02(tier: str, seed: int) -> int:
     cov = out.coverage
     cov["rule"] = ("every cell of OpTable.tla (operation x shapes x operand kinds x options x index kinds) replayed with an exact "
                    "seeded VJP; every row of Kernels.tla evaluated on its domain grid; distinct = distinct cells / rows")
-    cov["evaluations"] = cov.get("optable_cells", 0) + cov.get("kernel_rows", 0)
+    cov["evaluations"] = cov.get("traces_validated_against_impl", 0)
     cov["distinct_nontrivial"] = cov["evaluations"]
     cov["trusted_base"] = ["TLC 1.8 / SANY", "CommunityModules Json", "harness/driver.py", "harness/kernels.py (expression evaluator, longdouble)"]
     return out.finish()
